@@ -1,6 +1,6 @@
 (* C17 - Partition selection is deterministic and always lands on an existing partition.
    Statements only; every proof is [exact <lemma>] from Proofs/RoutingProofs.v. *)
-From IggyV Require Import Base.Tactics Base.ListX Model.Routing Proofs.RoutingProofs.
+From IggyV Require Import Base.Tactics Base.ListX Model.Routing Proofs.RoutingProofs Proofs.RoutingMonitor.
 Open Scope N_scope.
 
 (* key routing: the partition exists, for every hash value and every partition count *)
@@ -58,6 +58,14 @@ Theorem C17_balanced_even : forall cur c, 1 <= c -> c < U32 - 1 -> 1 <= cur ->
   length (balanced_ids cur c (N.to_nat c)) = N.to_nat c.
 Proof. exact balanced_even. Qed.
 
+(* the specification monitor that judges the implementation's observations in the check (Routing.rmon_check: named -> exactly there
+   or refused, key -> existing and stable per (hash, count), balanced -> the cyclic successor of the previous choice, one partition per
+   send, final contents) accepts EVERY run of the model, for every partition count and every history: it never demands more than the
+   model delivers, so an alarm from it is a behaviour the model does not have *)
+Theorem C17_monitor_accepts_model : forall n ops, N.of_nat n <= MAX_PARTITIONS ->
+  rmon_check n (combine ops (map obs_of (snd (rrun (rt_init n) ops)))) (r_parts (fst (rrun (rt_init n) ops))) = 0.
+Proof. exact model_accepted_by_monitor. Qed.
+
 Print Assumptions C17_key_in_range.
 Print Assumptions C17_key_deterministic.
 Print Assumptions C17_named_exact.
@@ -65,3 +73,4 @@ Print Assumptions C17_single_partition.
 Print Assumptions C17_balanced_in_range.
 Print Assumptions C17_balanced_rotation.
 Print Assumptions C17_balanced_even.
+Print Assumptions C17_monitor_accepts_model.
